@@ -1,19 +1,35 @@
-(* C10: the regenerated constants of the record codec (pkg/storage/driver/util.go, via
-   hx gen-tables) are the ones Storage/Codec.v and Storage/Base64.v model: the gzip magic
-   number, base64.StdEncoding, and the test len(b) > 3 && bytes.Equal(b[0:3], magicGzip). *)
-From Coq Require Import List String Bool Arith.
-From Helm Require Import Common.Strs Storage.Codec Gen.CodecConsts.
+(* C10: the regenerated description of the record codec (pkg/storage/driver, via hx gen-tables:
+   Gen/CodecConsts.v) is what Storage/Codec.v and Storage/Base64.v model: both directions use
+   base64.StdEncoding, the magic number is 1f 8b 08, and the guard read from the source sends
+   bytes through gunzip exactly when the model's [has_gzip_magic] holds - proved as an
+   EQUIVALENCE for all lengths, so any way of writing the same condition (len(b) > 3,
+   !(len(b) <= 3), len(b) >= 4, an early return on the negation, a helper function,
+   bytes.HasPrefix) satisfies it and any other condition does not. *)
+From Coq Require Import List String Bool Arith Lia ZifyBool.
+From Helm Require Import Common.Strs Storage.Codec Storage.GuardExpr Gen.CodecConsts.
 Import ListNotations.
 Local Open Scope string_scope.
 
+(* an entry the translator could not read is spelled "Unknown: <what>" / GUnknown "<what>"; the
+   values are computed before they are compared, so a failure prints that text *)
 Lemma codec_consts_table :
-  magic_gzip = magic_gzip_bytes /\ b64_encoding = "base64.StdEncoding" /\
-  magic_len_test = (">", 3) /\ magic_slice = (0, 3).
-Proof. repeat split; reflexivity. Qed.
+  (b64_encoding, b64_decoding) = ("base64.StdEncoding", "base64.StdEncoding") /\
+  magic_gzip = magic_gzip_bytes /\ gunknowns magic_guard = [].
+Proof. vm_compute. repeat split; reflexivity. Qed.
 
-(* the model's test written with the regenerated numbers is the model's test *)
-Lemma has_gzip_magic_table b :
-  has_gzip_magic b =
-  (Nat.ltb (snd magic_len_test) (String.length b)
-   && String.eqb (substring (fst magic_slice) (snd magic_slice - fst magic_slice) b) (bs magic_gzip)).
-Proof. reflexivity. Qed.
+(* for every length of b and every outcome of the byte comparisons *)
+Lemma magic_guard_equiv (len : nat) (mg : nat -> nat -> bool) :
+  gunzip_taken magic_guard_positive magic_guard len mg = Nat.ltb 3 len && mg 0 3.
+Proof.
+  cbv [gunzip_taken geval cmp_eval magic_guard magic_guard_positive].
+  destruct (mg 0 3); lia.
+Qed.
+
+(* b[lo:hi] equals the magic number (false when b is too short - Go would not get there) *)
+Definition starts_magic (b : string) (lo hi : nat) : bool :=
+  String.eqb (substring lo (hi - lo) b) Codec.magic_gzip.
+
+(* the guard of the source, evaluated on the bytes, is the model's dispatch condition *)
+Theorem magic_guard_is_model (b : string) :
+  gunzip_taken magic_guard_positive magic_guard (String.length b) (starts_magic b) = has_gzip_magic b.
+Proof. rewrite magic_guard_equiv. reflexivity. Qed.
